@@ -47,6 +47,7 @@ def _make_recorder():
             self.seen_ = (numpy.array(X, copy=True), numpy.array(y, copy=True),
                           None if sample_weight is None else numpy.array(sample_weight, copy=True))
             self.log.fits.append(self.seen_)
+            self.ref_ = (X, y, sample_weight)        # a learner may keep its training arrays without copying them (kernel / lazy learners)
             self.mean_ = float(numpy.mean(y)) if len(y) else 0.0
             self.k_ = len(self.log.fits)
             return self
@@ -103,6 +104,14 @@ def run_case(case):
         if len(log.fits) != m or len(model.estimators_) != m:
             bad("number of fitted models", ncond, "%d fits for n_estimators=%d %s" % (len(log.fits), m, desc))
             continue
+        for est in model.estimators_:
+            kept, seen = getattr(est, "ref_", None), getattr(est, "seen_", None)
+            if kept is None or seen is None:
+                continue
+            for nm, a_, b_ in zip(("features", "targets", "weights"), kept, seen):
+                if (a_ is None) != (b_ is None) or (a_ is not None and not numpy.array_equal(numpy.asarray(a_), b_)):
+                    bad("training arrays handed to a model were overwritten after its fit", ncond,
+                        "%s now %r, at fit time %r %s" % (nm, None if a_ is None else numpy.asarray(a_).ravel().tolist()[:6], None if b_ is None else b_.ravel().tolist()[:6], desc))
         for (Xs, ys, ws) in log.fits:
             if len(ys) not in sizes_ok or len(Xs) != len(ys):
                 bad("sample size != round(alpha*n)", ncond, "%d rows, expected %r %s" % (len(ys), sorted(sizes_ok), desc))
